@@ -58,6 +58,7 @@ pub fn run(args: &Args) {
                 // strings, RestoreOnErr around stack-changing branches, concatenated and factored literals
                 cfg.shapes_pct = 60;
                 cfg.skipper_pct = 25;
+                cfg.restorer_pct = 30;
                 cfg.max_depth = 5;
             }
             _ => {}
@@ -115,14 +116,6 @@ pub fn run(args: &Args) {
         }
         if rules.iter().any(|r| RUST_KEYWORDS.contains(&r.name.as_str())) {
             continue;
-        }
-        if family == "optimizer_shapes" {
-            // the skipper rewrites scan-until shapes in atomic rules only
-            for r in rules.iter_mut() {
-                if r.name != "WHITESPACE" && r.name != "COMMENT" && has_scan_shape(&r.expr) && grng.chance(1, 2) {
-                    r.ty = pest_meta::ast::RuleType::Atomic;
-                }
-            }
         }
         // half of the grammars in a fuzzed spelling (raw control characters and line breaks inside literals,
         // CRLF line ends, comments, optional separators): both back-ends read the same text
@@ -212,22 +205,6 @@ pub fn run(args: &Args) {
     let tdir = args.opt("target-dir").unwrap_or("/verif/target/gen-target");
     write_if_changed(out.join(".cargo/config.toml"), format!("[net]\noffline = true\n\n[build]\ntarget-dir = \"{tdir}\"\nrustflags = [\"--cfg\", \"pest_parser_pest_verif\"]\n")).unwrap();
     println!("{}", json!({"grammars": accepted, "tries": tries, "batches": batches, "config": config_name()}));
-}
-
-fn has_scan_shape(e: &pest_meta::ast::Expr) -> bool {
-    use pest_meta::ast::Expr;
-    let mut found = false;
-    let _ = e.clone().map_top_down(|x| {
-        if let Expr::Rep(inner) = &x {
-            if let Expr::Seq(a, b) = &**inner {
-                if matches!(&**a, Expr::NegPred(_)) && matches!(&**b, Expr::Ident(n) if n == "ANY") {
-                    found = true;
-                }
-            }
-        }
-        x
-    });
-    found
 }
 
 fn write_if_changed(path: impl AsRef<std::path::Path>, content: impl AsRef<[u8]>) -> std::io::Result<()> {
